@@ -72,6 +72,10 @@ pub fn table() -> Vec<(usize, &'static str)> {
         for name in BUILTIN_NAMES {
             if can_shadow(src, "T0", name) {
                 out.push((i, *name));
+            } else if *name == "i32" && words(src).contains(&"T0") && !words(src).contains(&"i64") && src.matches("i32").count() == words(src).iter().filter(|w| **w == "i32").count() {
+                // nearly every representative mentions `i32`: written with `i64` instead (source and
+                // s-expression alike; D and the model judge the rewritten script), `T0` can be spelled `i32`
+                out.push((i, "i32"));
             }
         }
     }
@@ -82,6 +86,8 @@ pub fn shadow_case(rt: &Runtime<NoCtx>, drv: &mut Driver, index: u64, rep: &mut 
     let t = table();
     let Some(&(i, name)) = t.get(index as usize) else { return };
     let (rname, src, sexp) = REPS[i];
+    let (src, sexp) = if can_shadow(src, "T0", name) { (src.to_string(), sexp.to_string()) } else { (rename_word(src, name, "i64"), rename_word(sexp, name, "i64")) };
+    let (src, sexp) = (src.as_str(), sexp.as_str());
     let shadowed = rename_word(src, "T0", name);
     // the spelling of a declared type does not matter: the script with `T0` and the script with
     // the built-in's name must get the same verdict from the type checker
